@@ -181,6 +181,8 @@ const EDITS: &[&str] = &[
     // aligned pairs exchanged: an inner node must commit to the order of its children
     "swap-sibling-pair",
     "swap-aligned-pairs",
+    // every transaction stripped, header (and therefore hash and signature) untouched
+    "remove-all-txs",
     "swap-two-txs-rewrite-root",
     "remove-tx-rewrite-root",
     // same header, same pre-hash, same hash; only the signature is by another key
@@ -217,7 +219,7 @@ async fn main() {
         let (gp, len) = *rng.pick(&[(20u64, 1usize), (20, 4), (8, 3), (5, 3)]);
         let ntx = rng.range(2, 5) as usize;
         for (e, edit) in EDITS.iter().enumerate() {
-            for first in ["edited-only", "original-first", "bootstrapped-node"] {
+            for first in ["edited-only", "original-first", "bootstrapped-node", "browser-node"] {
                 let mut wrng = Rng::new(args.seed * 7919 + wi as u64);
                 let mut w = build_world(gp, len, &mut wrng).await;
                 let ts = w.tip.timestamp + 150_000;
@@ -226,7 +228,9 @@ async fn main() {
                     let s = w.slips[k].clone();
                     txs.push(make_tx(&[s.clone()], &[(w.node.pk, s.amount)], &w.node.sk, ts + k as u64));
                 }
-                let original = make_block(&w.node, w.tip.hash, ts, txs, true, 900 + wi as u64).await.unwrap();
+                // the browser-node ordering uses a block without golden ticket and without fees: its
+                // header totals are zero, so nothing but the transaction commitment binds its content
+                let original = make_block(&w.node, w.tip.hash, ts, txs, first != "browser-node", 900 + wi as u64).await.unwrap();
                 let other = keypair(7);
                 let mut b = original.clone();
                 let extra_slip = w.slips[ntx].clone();
@@ -268,6 +272,7 @@ async fn main() {
                         t.generate(&w.node.pk, 0, 0);
                         b.transactions.insert(n0 + 1, t);
                     }
+                    "remove-all-txs" => b.transactions.clear(),
                     "swap-sibling-pair" => {
                         let ty: Vec<u8> = b.transactions.iter().map(|t| t.transaction_type as u8).collect();
                         if let Some(i) = (0..ty.len().saturating_sub(1)).step_by(2).find(|i| ty[*i] == 0 && ty[*i + 1] == 0) {
@@ -381,6 +386,10 @@ async fn main() {
                         continue;
                     }
                     w.node = fresh;
+                }
+                if first == "browser-node" {
+                    // a node configured as a browser (not spv): blocks are still validated
+                    w.node.cfg.browser = true;
                 }
                 if first == "original-first" {
                     let r = futures_catch(AssertUnwindSafe(w.node.add_block(original.clone()))).await;
